@@ -15,7 +15,15 @@ macro_rules! opaque {
         impl Clone for $n { #[verifier::external_body] fn clone(&self) -> (r: Self) ensures r == *self { unimplemented!() } }
     )* } }
 }
-opaque!(DesiredFilterNotSupported, AmqpError, SourceS, TargetS, TargetArch, Props, Unsettled, SessionStopReason, ReceiverAttachExchange, SenderAttachExchange, ReceiverSettleMode, VerifyErr);
+opaque!(DesiredFilterNotSupported, AmqpError, SourceS, TargetS, TargetArch, Props, Unsettled, SessionStopReason, SenderAttachExchange, ReceiverSettleMode, VerifyErr);
+//@@ type file=fe2o3-amqp/src/link/mod.rs kind=enum name=ReceiverAttachExchange
+//@@ end
+impl Unsettled {
+    /// the number of deliveries the peer's attach lists as unsettled
+    pub uninterp spec fn count(&self) -> nat;
+    #[verifier::external_body]
+    pub fn is_empty(&self) -> (r: bool) ensures r == (self.count() == 0) { unimplemented!() }
+}
 //@@ type file=fe2o3-amqp-types/src/definitions/snd_settle_mode.rs kind=enum name=SenderSettleMode clone
 //@@ end
 pub struct Handle(pub u32);
@@ -69,10 +77,14 @@ impl ReceiverLink {
     pub fn merge_properties(&mut self, p: Props)
         ensures *final(self) == *old(self),
     { unimplemented!() }
-    #[verifier::external_body]
-    pub fn handle_unsettled_in_attach(&mut self, u: Option<Unsettled>) -> (r: ReceiverAttachExchange)
-        ensures *final(self) == *old(self),
-    { unimplemented!() }
+//@@ fn file=fe2o3-amqp/src/link/receiver_link.rs impl=`impl<T> ReceiverLink<T>` name=handle_unsettled_in_attach id=ReceiverLink::handle_unsettled_in_attach
+//@@ orsplit
+//@@ param remote_unsettled : Option<Unsettled>
+//@@ spec
+    ensures *final(self) == *old(self),
+        (remote_unsettled is None || remote_unsettled->Some_0.count() == 0) ==> r is Complete,       // [C02.resume.nothing-unsettled-at-the-sender-is-complete] when the sender's attach lists no unsettled delivery there is nothing to resume: the exchange is complete and deliveries flow at once
+        (remote_unsettled is Some && remote_unsettled->Some_0.count() > 0) ==> (if old(self).local_state is IncompleteAttachReceived || old(self).local_state is IncompleteAttachSent || old(self).local_state is IncompleteAttachExchanged { r is IncompleteUnsettled } else { r is Resume }),       // [C02.resume.receiver-told-to-resume-or-retry] when it lists some, the application is told so -- resume them, or (one side sent an incomplete map) suspend and exchange again -- and is not told the link is ready
+//@@ end
 
 //@@ fn file=fe2o3-amqp/src/link/receiver_link.rs impl=`~impl<T>endpoint::LinkAttachforReceiverLink<T>` name=on_incoming_attach
 //@@ qmark
